@@ -21,6 +21,18 @@ initial states), "mix" cases propagate all pairwise equal mixtures of these stat
   redfield  (TD)RedfieldRelaxationTensor of a built dimer/trimer (operator / tensor / secular
             tensor form, with and without PureDephasing): trace and Hermiticity only
   (mix flag on lindblad/deph cases: positivity + agreement on pairwise mixtures)
+  lindblad / deph cases with a rotating frame check, next to the exact solution in the frame of
+  the calculation: the is_in_rwa flag of the returned evolution (set after propagate, cleared by
+  convert_from_RWA, never set without set_rwa), and the converted data against the exact
+  exponential of the LABORATORY-frame GKSL generator - for the complete product
+  {operator form, tensor form(, converted)} x {no dephasing, Lorentzian, Gaussian} x
+  {rwa off, every admissible block definition of RWA_BLOCKS}.
+  calling context (ctx_sites x ctx_units on closed / lindblad / deph / redfield cases): the calls
+  named by ctx_sites (set = Hamiltonian.set_rwa, build = construction of LindbladForm / Redfield
+  tensor / PureDephasing / propagator, prop = propagate, conv = convert_from_RWA) are made
+  INSIDE `with energy_units(ctx_units)`; every clause of the section must hold as it does outside
+  (keys prefixed units-context/<calls>-inside-<units>/) and the stored data must equal those of
+  the same calls made outside any context (class R).
 
 Oracles (reference model mc/refmodels/gksl.py, numpy/scipy only):
   R  trace = 1 and Hermiticity at every stored time: |dev| <= 1e-10 * max(1, max|rho|)
@@ -65,6 +77,47 @@ DEPH_G = (0.0, 3.0, 5.0, 4.0)        # Gaussian site dephasing constants * T^2
 SV_PHASES = (0.0, 2.1, -0.9)         # phase alphabet of the complex-amplitude state vectors (rad)
 SV_MODULI = (1.0, 0.8, 0.6, 0.5)     # their (unnormalised) moduli, all non-zero and distinct
 SV_ROUTES = ("evolution", "statevector")
+# calling context: which calls are made inside `with energy_units(u)`
+CTX_SITE_NAMES = {"set": "set_rwa", "build": "construction", "prop": "propagate",
+                  "conv": "convert_from_RWA"}
+CTX_UNIT_LABELS = {"1/cm": "1-per-cm", "eV": "eV", "THz": "THz", "int": "int", "meV": "meV"}
+# propagate / convert_from_RWA read the Hamiltonian through unit-managed accessors WITHOUT
+# protecting themselves: made inside a units context they fail on the unchanged tree (reported;
+# DESIGN 7.5).  These two call sites are explored only on request.
+CTX_CALLS_TOO = __import__("os").environ.get("VERIF_C02_CALL_CONTEXT", "") not in ("", "0")
+
+
+def ctx_sites_domain():
+    base = ["set", "build", "set+build"]
+    if CTX_CALLS_TOO:
+        base += ["prop", "conv", "set+build+prop+conv"]
+    return base
+
+
+def _ctx(case, site):
+    """Context manager around one call site: energy_units(ctx_units) when the case puts this
+    site inside a units context, a null context otherwise."""
+    import contextlib
+    sites = case.get("ctx_sites", "none")
+    if sites != "none" and site in sites.split("+"):
+        from quantarhei import energy_units
+        return energy_units(case["ctx_units"])
+    return contextlib.nullcontext()
+
+
+def _ctx_prefix(case):
+    sites = case.get("ctx_sites", "none")
+    if sites == "none":
+        return ""
+    return "units-context/%s-inside-%s/" % (
+        "+".join(CTX_SITE_NAMES[x] for x in sites.split("+")), CTX_UNIT_LABELS[case["ctx_units"]])
+
+
+def _no_ctx(case):
+    c = dict(case)
+    c.pop("ctx_sites", None)
+    c.pop("ctx_units", None)
+    return c
 
 
 def all_unit_sets(d, maxsize=2):
@@ -186,6 +239,38 @@ def reference(case, m, vecs0, norms0):
     return out
 
 
+def lab_exact(case, m, ref, vecs0):
+    """Exact states of an admissible rotating-frame case in the LABORATORY frame, array
+    (Nt, d^2, nstates), and the reference's own error allowance.
+
+    Constant generators: powers of expm(L_lab dt) with the laboratory Liouvillian (Hamiltonian
+    without the frame frequencies), independent of the rotating-frame reference; the two references
+    must be the same dynamics seen from two frames (harness self-test, this is what admissibility
+    [L, ad_Omega] = 0 means).  Gaussian dephasing: the rotating-frame reference (Magnus) carried
+    to the laboratory frame, rho(t) = e^{-i Om t} rho_rot(t) e^{+i Om t} (the dephasing
+    dissipator is diagonal in the matrix-unit basis and commutes with the rotation)."""
+    d, Nt, dt = m["d"], m["Nt"], m["dt"]
+    rot = ref["exact"]
+    carried = numpy.zeros_like(rot)
+    for i in range(Nt):
+        for k in range(rot.shape[2]):
+            carried[i, :, k] = G.to_lab(rot[i, :, k].reshape(d, d), m["omega"], i * dt).reshape(-1)
+    pd = case.get("pdeph", "none")
+    if pd == "Gaussian":
+        return carried, ref["ref_err"]
+    Llab = G.liouvillian(m["H"], m["jumps"])
+    if pd == "Lorentzian":
+        Llab = Llab + G.dissipator(G.dephasing_jumps(m["w"]), d)
+    Est = expm(Llab * dt)
+    if not G.check_semigroup(Llab, Est, dt, Nt):
+        raise isolation.HarnessError("laboratory reference semigroup inconsistent")
+    direct = G.exact_states_constant(Est, vecs0, Nt)
+    if float(numpy.max(numpy.abs(direct - carried))) > 1e-9:
+        raise isolation.HarnessError("laboratory-frame and rotating-frame references disagree "
+                                     "for an admissible RWA case")
+    return direct, 0.0
+
+
 # ---------------------------------------------------------------------------------------------
 # library side
 # ---------------------------------------------------------------------------------------------
@@ -193,11 +278,17 @@ def lib_hamiltonian(m, case, rwa=True):
     qr = isolation.qr()
     ham = qr.Hamiltonian(data=numpy.array(m["H"], dtype=float))
     if rwa and case.get("rwa", "off") != "off":
-        ham.set_rwa(list(RWA_BLOCKS[case["rwa"]]))
+        with _ctx(case, "set"):
+            ham.set_rwa(list(RWA_BLOCKS[case["rwa"]]))
     return ham
 
 
 def lib_lindblad(m, case, ham):
+    with _ctx(case, "build"):
+        return _lib_lindblad(m, case, ham)
+
+
+def _lib_lindblad(m, case, ham):
     from quantarhei.qm import SystemBathInteraction, Operator, LindbladForm
     ops = [Operator(data=numpy.array(K, dtype=float)) for K in m["Ks"]]
     sbi = SystemBathInteraction(ops, rates=list(m["rates"]))
@@ -217,7 +308,8 @@ def lib_pdeph(m, case):
     from quantarhei.qm import PureDephasing
     if case.get("pdeph", "none") == "none":
         return None
-    return PureDephasing(G.dephasing_rate_matrix(m["w"]), dtype=case["pdeph"])
+    with _ctx(case, "build"):
+        return PureDephasing(G.dephasing_rate_matrix(m["w"]), dtype=case["pdeph"])
 
 
 def propagate_dm(case, ta, ham, rho0, tensor=None, pdeph=None):
@@ -228,18 +320,29 @@ def propagate_dm(case, ta, ham, rho0, tensor=None, pdeph=None):
         kw["RTensor"] = tensor
     if pdeph is not None:
         kw["PDeph"] = pdeph
-    pr = ReducedDensityMatrixPropagator(ta, ham, **kw)
-    ev = pr.propagate(ReducedDensityMatrix(data=numpy.array(rho0, dtype=complex)),
-                      method="short-exp-%d" % case["order"], Nref=case["nref"])
+    with _ctx(case, "build"):
+        pr = ReducedDensityMatrixPropagator(ta, ham, **kw)
+    rho = ReducedDensityMatrix(data=numpy.array(rho0, dtype=complex))
+    with _ctx(case, "prop"):
+        ev = pr.propagate(rho, method="short-exp-%d" % case["order"], Nref=case["nref"])
     return ev
+
+
+def from_rwa(case, ev, ham):
+    """convert_from_RWA at the call site 'conv'."""
+    with _ctx(case, "conv"):
+        ev.convert_from_RWA(ham)
 
 
 def propagate_sv(case, ta, ham, psi0):
     from quantarhei import StateVector, StateVectorPropagator
-    pr = StateVectorPropagator(ta, ham)
-    if case["nref"] > 1:
-        pr.setDtRefinement(case["nref"])
-    return pr.propagate(StateVector(data=numpy.array(psi0, dtype=complex)), L=case["order"])
+    with _ctx(case, "build"):
+        pr = StateVectorPropagator(ta, ham)
+        if case["nref"] > 1:
+            pr.setDtRefinement(case["nref"])
+    psi = StateVector(data=numpy.array(psi0, dtype=complex))
+    with _ctx(case, "prop"):
+        return pr.propagate(psi, L=case["order"])
 
 
 def sv_routes(sev, which=SV_ROUTES):
@@ -302,11 +405,13 @@ class Book:
     """Keeps, per violation key, the worst offender; per clause the worst usage of the
     allowed deviation (err/tol) and the worst absolute deviation on this case."""
 
-    def __init__(self):
+    def __init__(self, prefix=""):
         self.v = {}
         self.worst = {}
+        self.prefix = prefix
 
     def check(self, clause, key, err, tol, what, details=None, informative=True):
+        key = self.prefix + key
         err = numpy.asarray(err, dtype=float)
         tol = numpy.asarray(tol, dtype=float) * numpy.ones_like(err)
         bad = ~(err <= tol)             # NaN counts as bad
@@ -347,6 +452,22 @@ def _validity(book, tag, lab, D):
                "trace of the stored state differs from 1 (initial state %s)" % lab, {"state": lab})
     book.check("hermiticity", "hermiticity/" + tag, he, RTOL * sc,
                "stored state is not Hermitian (initial state %s)" % lab, {"state": lab})
+
+
+def _independent(book, tag, lab, got, base):
+    """Class R: data obtained with some calls made inside a units context equal the data of the
+    same calls made outside any context."""
+    got, base = numpy.asarray(got), numpy.asarray(base)
+    if got.shape != base.shape or not numpy.all(numpy.isfinite(got)) \
+            or not numpy.all(numpy.isfinite(base)):
+        err = [numpy.inf]
+        sc = 1.0
+    else:
+        err = numpy.max(numpy.abs((got - base).reshape(got.shape[0], -1)), axis=1)
+        sc = max(1.0, float(numpy.max(numpy.abs(base))))
+    book.check("units-context", "differs-from-calls-outside/" + tag, err, RTOL * sc,
+               "result of calls made inside a units context differs from the result of the same "
+               "calls made outside (initial state %s)" % lab, {"state": lab})
 
 
 def _fro(X):
@@ -392,13 +513,17 @@ def eval_closed(case):
     qr = isolation.qr()
     m = model(case)
     d, Nt, dt = m["d"], m["Nt"], m["dt"]
-    book = Book()
+    book = Book(_ctx_prefix(case))
+    in_ctx = case.get("ctx_sites", "none") != "none"
+    case0 = _no_ctx(case)
     labels, psis, rhos = _states(case, d)
-    # complex-amplitude state vectors: complete phase family (after the spanning set)
-    glabels, gpsis = G.phase_family(d, SV_PHASES, SV_MODULI)
-    labels = list(labels) + glabels
-    psis = list(psis) + gpsis
-    rhos = list(rhos) + [G.projector(p) for p in gpsis]
+    if not in_ctx:
+        # complex-amplitude state vectors: complete phase family (after the spanning set); the
+        # calling-context cases run on the spanning set (every clause they add is linear)
+        glabels, gpsis = G.phase_family(d, SV_PHASES, SV_MODULI)
+        labels = list(labels) + glabels
+        psis = list(psis) + gpsis
+        rhos = list(rhos) + [G.projector(p) for p in gpsis]
     vecs0 = [r.reshape(-1) for r in rhos]
     rwa = case["rwa"] != "off"
     tag = _tag(case)
@@ -448,6 +573,7 @@ def eval_closed(case):
 
     ham = lib_hamiltonian(m, case)
     ham_lab = lib_hamiltonian(m, case, rwa=False) if rwa else None
+    ham0 = lib_hamiltonian(m, case0) if in_ctx else None    # same calls outside any context
     Hlab = m["H"]
     hn = float(numpy.linalg.norm(Hlab))
     digest = []
@@ -467,7 +593,10 @@ def eval_closed(case):
             if not getattr(ev, "is_in_rwa", False):
                 book.check("rwa-dm", "rwa/dm/flag-not-set", [1.0], 0.0,
                            "evolution computed with an RWA Hamiltonian is not flagged is_in_rwa")
-            ev.convert_from_RWA(ham)
+            from_rwa(case, ev, ham)
+            if getattr(ev, "is_in_rwa", False):
+                book.check("rwa-dm", "rwa/dm/flag-still-set-after-conversion", [1.0], 0.0,
+                           "evolution converted by convert_from_RWA is still flagged is_in_rwa")
             conv = numpy.array(ev.data, copy=True)
             _validity(book, tag + "/converted", lab, conv)
             exlab = reflab["exact"][:, :, k].reshape(Nt, d, d)
@@ -491,10 +620,12 @@ def eval_closed(case):
                     p2 = _P(ta, h2)
                     p2.propagate(_R(data=numpy.array(rho0, dtype=complex)),
                                  method="short-exp-%d" % order, Nref=nref)
-                    h2.set_rwa(list(RWA_BLOCKS[case["rwa"]]))
-                    e2 = p2.propagate(_R(data=numpy.array(rho0, dtype=complex)),
-                                      method="short-exp-%d" % order, Nref=nref)
-                    e2.convert_from_RWA(h2)
+                    with _ctx(case, "set"):
+                        h2.set_rwa(list(RWA_BLOCKS[case["rwa"]]))
+                    rr2 = _R(data=numpy.array(rho0, dtype=complex))
+                    with _ctx(case, "prop"):
+                        e2 = p2.propagate(rr2, method="short-exp-%d" % order, Nref=nref)
+                    from_rwa(case, e2, h2)
                     book.check("rwa-dm", "rwa/dm/propagator-reused-after-set_rwa/vs-exact-lab",
                                _fro(numpy.array(e2.data) - exlab), tolT,
                                "a propagator used before and after Hamiltonian.set_rwa(%r -> %r): "
@@ -513,6 +644,16 @@ def eval_closed(case):
                        informative=(b_dm[-1] + reflab["b"][-1]) <= INFORMATIVE)
         else:
             conv = raw
+            if getattr(ev, "is_in_rwa", False):
+                book.check("rwa-dm", "rwa/dm/flag-set-without-rwa", [1.0], 0.0,
+                           "evolution computed with a Hamiltonian without RWA is flagged is_in_rwa")
+        if in_ctx:
+            ev0 = propagate_dm(case0, ta, ham0, rho0)
+            raw0 = numpy.array(ev0.data, copy=True)
+            _independent(book, tag + "/dm-raw", lab, raw, raw0)
+            if rwa:
+                ev0.convert_from_RWA(ham0)
+                _independent(book, tag + "/dm-converted", lab, conv, numpy.array(ev0.data))
         # conservation laws (laboratory frame, laboratory Hamiltonian)
         bb = b_dm
         pur = numpy.real(numpy.einsum("tij,tji->t", conv, conv))
@@ -529,6 +670,9 @@ def eval_closed(case):
         # ---------------- state vector ---------------------------------------------------
         sev = propagate_sv(case, ta, ham, psi0)
         sraw = numpy.array(sev.data, copy=True)
+        if in_ctx:
+            sev0 = propagate_sv(case0, ta, ham0, psi0)
+            _independent(book, tag + "/sv-raw", lab, sraw, numpy.array(sev0.data))
         if not numpy.all(numpy.isfinite(sraw)):
             book.check("norm", "conserve/norm/sv/%s" % tag, [numpy.inf], RTOL,
                        "non-finite state vector")
@@ -581,15 +725,18 @@ def eval_closed(case):
                                "is_in_rwa returns rotating-frame data flagged is_in_rwa=False "
                                "(convert_from_RWA on it silently does nothing)")
                 else:
-                    dme.convert_from_RWA(ham)
+                    from_rwa(case, dme, ham)
                     book.check("rwa-sv", "rwa/sv-derived-dm/vs-library-converted",
                                _fro(numpy.array(dme.data) - conv), tol_route,
                                "density-matrix evolution derived from an RWA state-vector "
                                "evolution and converted by convert_from_RWA differs from the "
                                "converted density-matrix propagation (state %s)" % lab,
                                {"state": lab}, informative=inf_route)
-            sev.convert_from_RWA(ham)
+            from_rwa(case, sev, ham)
             sconv = numpy.array(sev.data, copy=True)
+            if in_ctx:
+                sev0.convert_from_RWA(ham0)
+                _independent(book, tag + "/sv-converted", lab, sconv, numpy.array(sev0.data))
             # the evolution object again after its conversion to the laboratory frame (the route
             # through StateVector is a stateless function of one stored vector: done above on
             # every stored vector of the calculation)
@@ -622,7 +769,8 @@ def eval_closed(case):
     return {"nontrivial": nontrivial,
             "outcome": [tag, digest, "%.2e" % b_dm[-1]],
             # propagations (dm, sv [, lab dm, lab sv]) + route evaluations (raw [, converted])
-            "violations": book.violations(), "n": len(labels) * (6 if rwa else 3) - 1,
+            "violations": book.violations(),
+            "n": len(labels) * ((6 if rwa else 3) + (2 if in_ctx else 0)) - 1,
             "info": {"worst": book.worst, "sec": "closed", "informative": nontrivial}}
 
 
@@ -646,7 +794,9 @@ def eval_lindblad(case):
     qr = isolation.qr()
     m = model(case)
     d, Nt, dt = m["d"], m["Nt"], m["dt"]
-    book = Book()
+    book = Book(_ctx_prefix(case))
+    in_ctx = case.get("ctx_sites", "none") != "none"
+    case0 = _no_ctx(case)
     labels, psis, rhos = _states(case, d)
     vecs0 = [r.reshape(-1) for r in rhos]
     rwa = case.get("rwa", "off") != "off"
@@ -667,9 +817,15 @@ def eval_lindblad(case):
         raise isolation.HarnessError("pure dephasing without tensor became buildable: "
                                      "extend the driver")
     tensor = lib_lindblad(m, case, ham)
+    if in_ctx:                      # the same objects from calls made outside any context
+        ham0 = lib_hamiltonian(m, case0)
+        pde0 = lib_pdeph(m, case0)
+        tensor0 = lib_lindblad(m, case0, ham0)
     ref = reference(case, m, vecs0, None)
     b = ref["b"]
     inform = bool(b[-1] <= INFORMATIVE)
+    if rwa:
+        exlab_all, lab_err = lab_exact(case, m, ref, vecs0)
     digest = []
     for k, lab in enumerate(labels):
         rho0 = rhos[k]
@@ -677,6 +833,17 @@ def eval_lindblad(case):
         ev = propagate_dm(case, ta, ham, rho0, tensor=tensor, pdeph=pde)
         raw = numpy.array(ev.data, copy=True)
         _validity(book, tag + "/raw", lab, raw)
+        flagged = bool(getattr(ev, "is_in_rwa", False))
+        if rwa and not flagged:
+            book.check("rwa-flag", "rwa/flag-not-set/%s" % tag, [1.0], 0.0,
+                       "evolution computed with an RWA Hamiltonian is not flagged is_in_rwa "
+                       "(convert_from_RWA on it silently does nothing)")
+        if flagged and not rwa:
+            book.check("rwa-flag", "rwa/flag-set-without-rwa/%s" % tag, [1.0], 0.0,
+                       "evolution computed with a Hamiltonian without RWA is flagged is_in_rwa")
+        if in_ctx:
+            ev0 = propagate_dm(case0, ta, ham0, rho0, tensor=tensor0, pdeph=pde0)
+            _independent(book, tag + "/dm-raw", lab, raw, numpy.array(ev0.data))
         if not numpy.all(numpy.isfinite(raw)):
             continue
         tolT = 2.0 * b * n0 + RTOL + ref["ref_err"]
@@ -687,9 +854,25 @@ def eval_lindblad(case):
                    % (lab, case["order"], case["nref"], case["gen"]), {"state": lab},
                    informative=inform)
         if rwa:
-            ev.convert_from_RWA(ham)
+            from_rwa(case, ev, ham)
+            if getattr(ev, "is_in_rwa", False):
+                book.check("rwa-flag", "rwa/flag-still-set-after-conversion/%s" % tag, [1.0], 0.0,
+                           "evolution converted by convert_from_RWA is still flagged is_in_rwa")
             conv = numpy.array(ev.data, copy=True)
             _validity(book, tag + "/converted", lab, conv)
+            if in_ctx:
+                ev0.convert_from_RWA(ham0)
+                _independent(book, tag + "/dm-converted", lab, conv, numpy.array(ev0.data))
+            # the clause "agree with the exact exponential of the GKSL generator" on the result
+            # in the laboratory frame (conversion is unitary: same bound as in the rotating frame)
+            exl = exlab_all[:, :, k].reshape(Nt, d, d)
+            book.check("rwa-exact-lab", "rwa/vs-exact-lab/%s" % tag, _fro(conv - exl),
+                       tolT + lab_err,
+                       "rotating-frame dynamics converted back by convert_from_RWA differ from "
+                       "exp(L t) rho0 of the laboratory-frame GKSL generator by more than the "
+                       "truncation bound (state %s, order %d, Nref %d, generator %s)"
+                       % (lab, case["order"], case["nref"], case["gen"]), {"state": lab},
+                       informative=inform)
         else:
             conv = raw
         mine = numpy.array([G.min_eigenvalue(x) for x in conv])
@@ -704,7 +887,7 @@ def eval_lindblad(case):
     nontrivial = has_gen and inform
     return {"nontrivial": nontrivial,
             "outcome": [tag, case["gen"], digest, "%.2e" % b[-1]],
-            "violations": book.violations(), "n": len(labels) - 1,
+            "violations": book.violations(), "n": len(labels) * (2 if in_ctx else 1) - 1,
             "info": {"worst": book.worst, "sec": case["sec"], "informative": nontrivial}}
 
 
@@ -722,30 +905,50 @@ def eval_redfield(case):
     n = case["nsites"]
     d = n + 1
     Nt, dt = case["axis"]
-    book = Book()
+    book = Book(_ctx_prefix(case))
+    in_ctx = case.get("ctx_sites", "none") != "none"
+    case0 = _no_ctx(case)
     tag = _tag(case)
     en = REDFIELD_SYS[n]["optical" if case["rwa"] == "ge" else "low"]
     J = systems.chain_J(n, 60.0) if n == 2 else systems.full_J(n, [60.0, -40.0, 25.0])
-    tb = qr.TimeAxis(0.0, 10 * Nt, dt / 10.0) if case["td"] else qr.TimeAxis(0.0, 300, 1.0)
     bath = {"reorg": 30.0, "cortime": 60.0, "T": 300.0}
-    ham, sbi = systems.ham_sbi(en, J, bath, tb)
-    if case["rwa"] == "ge":
-        ham.set_rwa([0, 1])
     cls = TDRedfieldRelaxationTensor if case["td"] else RedfieldRelaxationTensor
     form = case["form"]
+    T = (Nt - 1) * dt
+
+    def build(c):
+        """Hamiltonian (+ set_rwa), relaxation tensor and pure dephasing; the calls the case
+        names are made inside its units context."""
+        tb = qr.TimeAxis(0.0, 10 * Nt, dt / 10.0) if c["td"] else qr.TimeAxis(0.0, 300, 1.0)
+        ham, sbi = systems.ham_sbi(en, J, bath, tb)
+        if c["rwa"] == "ge":
+            with _ctx(c, "set"):
+                ham.set_rwa([0, 1])
+        with _ctx(c, "build"):
+            if form == "operators":
+                RT = cls(ham, sbi, as_operators=True)
+            elif form == "tensor":
+                RT = cls(ham, sbi, as_operators=False)
+            elif form == "secular":
+                RT = cls(ham, sbi, as_operators=False)
+                RT.secularize()
+            elif form == "operators-secular":
+                RT = cls(ham, sbi, as_operators=True)
+                RT.secularize()
+            else:
+                raise isolation.HarnessError(form)
+            pde = None
+            if c["pdeph"] == "Lorentzian":
+                pde = PureDephasing(G.dephasing_rate_matrix(numpy.array(DEPH_L[:d]) / T),
+                                    dtype="Lorentzian")
+            elif c["pdeph"] == "Gaussian":
+                pde = PureDephasing(G.dephasing_rate_matrix(numpy.array(DEPH_G[:d]) / T ** 2),
+                                    dtype="Gaussian")
+        return ham, RT, pde
     try:
-        if form == "operators":
-            RT = cls(ham, sbi, as_operators=True)
-        elif form == "tensor":
-            RT = cls(ham, sbi, as_operators=False)
-        elif form == "secular":
-            RT = cls(ham, sbi, as_operators=False)
-            RT.secularize()
-        elif form == "operators-secular":
-            RT = cls(ham, sbi, as_operators=True)
-            RT.secularize()
-        else:
-            raise isolation.HarnessError(form)
+        ham, RT, pde = build(case)
+        if in_ctx:
+            ham0, RT0, pde0 = build(case0)
     except isolation.HarnessError:
         raise
     except Exception as e:
@@ -754,14 +957,6 @@ def eval_redfield(case):
             raise
         return {"nontrivial": False, "outcome": "unbuildable:" + name, "violations": [],
                 "info": {"unbuildable": name, "sec": "redfield"}}
-    pde = None
-    T = (Nt - 1) * dt
-    if case["pdeph"] == "Lorentzian":
-        pde = PureDephasing(G.dephasing_rate_matrix(numpy.array(DEPH_L[:d]) / T),
-                            dtype="Lorentzian")
-    elif case["pdeph"] == "Gaussian":
-        pde = PureDephasing(G.dephasing_rate_matrix(numpy.array(DEPH_G[:d]) / T ** 2),
-                            dtype="Gaussian")
     ta = qr.TimeAxis(0.0, Nt, dt)
     labels, psis, rhos = _states(case, d)
     digest = []
@@ -776,13 +971,29 @@ def eval_redfield(case):
                     "info": {"unbuildable": name, "sec": "redfield"}}
         raw = numpy.array(ev.data, copy=True)
         _validity(book, tag + "/raw", lab, raw)
+        flagged = bool(getattr(ev, "is_in_rwa", False))
+        if flagged != (case["rwa"] == "ge"):
+            book.check("rwa-flag", "rwa/flag-%s/%s" % ("set-without-rwa" if flagged else "not-set",
+                                                        tag), [1.0], 0.0,
+                       "evolution computed with%s RWA Hamiltonian is%s flagged is_in_rwa"
+                       % ((" a Hamiltonian without", "") if flagged else (" an", " not")))
+        if in_ctx:
+            ev0 = propagate_dm(case0, ta, ham0, rhos[k], tensor=RT0, pdeph=pde0)
+            _independent(book, tag + "/dm-raw", lab, raw, numpy.array(ev0.data))
         if case["rwa"] == "ge":
-            ev.convert_from_RWA(ham)
-            _validity(book, tag + "/converted", lab, numpy.array(ev.data, copy=True))
+            from_rwa(case, ev, ham)
+            if getattr(ev, "is_in_rwa", False):
+                book.check("rwa-flag", "rwa/flag-still-set-after-conversion/%s" % tag, [1.0], 0.0,
+                           "evolution converted by convert_from_RWA is still flagged is_in_rwa")
+            conv = numpy.array(ev.data, copy=True)
+            _validity(book, tag + "/converted", lab, conv)
+            if in_ctx:
+                ev0.convert_from_RWA(ham0)
+                _independent(book, tag + "/dm-converted", lab, conv, numpy.array(ev0.data))
         if k in (1, 2, d):
             digest.append(_digest(raw))
     return {"nontrivial": True, "outcome": [tag, n, case["order"], case["nref"], digest],
-            "violations": book.violations(), "n": len(labels) - 1,
+            "violations": book.violations(), "n": len(labels) * (2 if in_ctx else 1) - 1,
             "info": {"worst": book.worst, "sec": "redfield", "informative": True}}
 
 
@@ -848,7 +1059,10 @@ def cases(tier):
             return False
         if c["rwa"] == "ge2" and c["dim"] != 4:
             return False
+        if c["rwa"] == "one" and (c["dim"] != 2 or (quick and c["nref"] != 1)):
+            return False       # one block: two levels (as in the closed section)
         return rwa_admissible(c)
+    rwas = ["off", "ge", "one", "ge2"]      # every block definition of RWA_BLOCKS
     for d, gens, hams, scales, axes in (
             (2, gens2, ["coupled", "diag", "degenerate"], [1.0] if quick else [1.0, 0.25],
              [AX_SHORT] if quick else [AX_SHORT, AX_LONG]),
@@ -859,8 +1073,7 @@ def cases(tier):
         if quick and (d == 4 or scales == [0.25]):
             continue
         dom = {"sec": ["lindblad"], "dim": [d], "ham": hams, "scale": scales, "axis": axes,
-               "gen": gens, "form": forms, "pdeph": ["none"],
-               "rwa": ["off", "ge"] + (["ge2"] if d == 4 else []),
+               "gen": gens, "form": forms, "pdeph": ["none"], "rwa": rwas,
                "order": ORDERS, "nref": NREFS, "mix": [False]}
         cs += product(dom, ok_lind)
 
@@ -873,9 +1086,16 @@ def cases(tier):
                "scale": [0.25] if quick else [1.0, 0.25],
                "axis": [AX_SHORT] if (quick or d > 2) else [AX_SHORT, AX_LONG],
                "gen": gens[:2] if quick else gens, "form": forms,
-               "pdeph": ["Lorentzian", "Gaussian"],
-               "rwa": ["off", "ge"] if d > 2 else ["off"],
+               "pdeph": ["Lorentzian", "Gaussian"], "rwa": rwas,
                "order": ORDERS, "nref": NREFS, "mix": [False]}
+        cs += product(dom, ok_lind)
+    if quick:
+        # four levels are outside the quick bound of the sections above; the block definition
+        # that needs four levels is crossed with representation x dephasing on one system
+        dom = {"sec": ["deph"], "dim": [4], "ham": ["coupled"], "scale": [0.25],
+               "axis": [AX_SHORT], "gen": ["12+21"], "form": forms,
+               "pdeph": ["none", "Lorentzian", "Gaussian"], "rwa": ["ge2"], "order": [4],
+               "nref": [1], "mix": [False]}
         cs += product(dom, ok_lind)
     # pure dephasing without a relaxation tensor (expected unbuildable; counted)
     for d in (2, 3):
@@ -897,6 +1117,36 @@ def cases(tier):
                "pdeph": ["Lorentzian", "Gaussian"], "rwa": ["off"],
                "order": [4] if quick else ORDERS, "nref": [1] if quick else [1, 2], "mix": [True]}
         cs += product(dom, ok_lind)
+
+    # ---- calling context: named calls made inside `with energy_units(u)` ----------------------------
+    sites = ctx_sites_domain()
+    units = ["1/cm", "eV"] if quick else ["1/cm", "eV", "THz", "int"]
+
+    def ok_ctx(c):
+        if c.get("rwa", "off") == "off" and (set(c["ctx_sites"].split("+")) & {"set", "conv"}):
+            return False       # no set_rwa / convert_from_RWA call without a rotating frame
+        return True
+    dom = {"sec": ["closed"], "dim": [2, 3] if quick else [2, 3, 4],
+           "ham": ["coupled"] if quick else ["coupled", "diag", "cross"], "scale": [1.0],
+           "axis": [AX_SHORT], "rwa": ["off", "ge", "one", "ge2"],
+           "order": [4] if quick else ORDERS, "nref": [1] if quick else [1, 2], "t0": [0.0],
+           "ctx_sites": sites, "ctx_units": units}
+    cs += product(dom, lambda c: ok_closed(c) and ok_ctx(c))
+    for d, gen, orders in ((3, "12+21", ORDERS), (2, "01", [4]), (4, "12+21", [4])):
+        if quick and d != 3:
+            continue
+        dom = {"sec": ["deph"], "dim": [d], "ham": ["coupled"] if quick else ["coupled", "diag"],
+               "scale": [0.25], "axis": [AX_SHORT], "gen": [gen], "form": forms,
+               "pdeph": ["none", "Lorentzian", "Gaussian"], "rwa": rwas,
+               "order": [4] if quick else orders, "nref": [1] if quick else [1, 2],
+               "mix": [False], "ctx_sites": sites, "ctx_units": units}
+        cs += product(dom, lambda c: ok_lind(c) and ok_ctx(c))
+    dom = {"sec": ["redfield"], "nsites": [2], "td": [False, True],
+           "form": ["tensor", "operators"] if quick else ["tensor", "operators", "secular"],
+           "pdeph": ["none"] if quick else ["none", "Gaussian"],
+           "rwa": ["ge"] if quick else ["off", "ge"], "axis": [AX_SHORT], "order": [4],
+           "nref": [1] if quick else [1, 2], "ctx_sites": sites, "ctx_units": units}
+    cs += product(dom, ok_ctx)
 
     # ---- Redfield tensors: trace and Hermiticity -------------------------------------------------
     dom = {"sec": ["redfield"], "nsites": [2] if quick else [2, 3], "td": [False, True],
@@ -923,13 +1173,21 @@ def run(run):
                 "matrices through every public route (get_DensityMatrixEvolution, "
                 "StateVector.get_DensityMatrix at every stored time, stored initial StateVector), "
                 "before and after convert_from_RWA, checked at every stored index incl. 0.  "
+                "Lindblad cases cross {operator, tensor(, converted) form} x {no, Lorentzian, "
+                "Gaussian dephasing} x {rwa off, every admissible block definition %r} and check, "
+                "besides the exact solution in the frame of the calculation, the is_in_rwa flag of "
+                "the returned evolution and the converted data against the exact LABORATORY-frame "
+                "solution.  Calling-context sub-products (closed | lindblad+dephasing | Redfield) x "
+                "ctx_sites %r x ctx_units: the named calls are made inside `with "
+                "energy_units(u)`, all clauses of the section apply and the stored data must equal "
+                "those of the same calls made outside (class R).  "
                 "RWA cases are in the product only "
                 "when [L, ad_Omega] = 0 (rotating-frame calculation is exact).  non-trivial = the "
                 "generator acts (coupling or >= 2 distinct energies for closed systems, a non-zero "
                 "jump/dephasing rate otherwise) AND the a-priori truncation bound at the final "
                 "time is <= %g (so the T-class oracle discriminates); Redfield cases (class R "
                 "clauses only) are all non-trivial; unbuildable configurations are trivial"
-                % (SV_MODULI, SV_PHASES, INFORMATIVE))
+                % (SV_MODULI, SV_PHASES, sorted(RWA_BLOCKS), ctx_sites_domain(), INFORMATIVE))
     run.assumptions = [
         "reference: GKSL Liouvillian from Kronecker products, scipy.linalg.expm "
         "(mc/refmodels/gksl.py); Gaussian dephasing reference = 4th order Magnus, 4 sub-steps, own "
@@ -941,12 +1199,28 @@ def run(run):
         "that positivity is a theorem for the exact dynamics",
         "initial time 0 (rotating and laboratory frame coincide at the initial time)",
         "Redfield/TD-Redfield generators are not of Lindblad form: only trace and Hermiticity",
+        "calling context: the Hamiltonian is created outside any units context (its data are "
+        "internal-unit numbers); Hamiltonian.set_rwa and the constructors of LindbladForm / "
+        "Redfield tensors / PureDephasing / the propagators may be called inside `with "
+        "energy_units(u)` and must not depend on it.  NOT claimed: propagate(...) and "
+        "convert_from_RWA(...) themselves executed inside a units context - they read the "
+        "Hamiltonian through unit-managed accessors without protecting themselves (the package "
+        "is not written to be called inside a units context, DESIGN 7.5; e.g. closed 3-level "
+        "system, `with energy_units('1/cm'): prop.propagate(rho0)` gives NaN); these two call "
+        "sites are explored only with VERIF_C02_CALL_CONTEXT=1 (now: %s)"
+        % ("on" if CTX_CALLS_TOO else "off"),
+        "laboratory-frame reference of an admissible RWA Lindblad case: powers of expm(L_lab dt) "
+        "(constant generators; cross-checked against the rotating-frame reference carried to the "
+        "laboratory frame) or the carried rotating-frame Magnus reference (Gaussian dephasing)",
     ]
     run.bounds = {"dims": [2, 3] if run.tier == "quick" else [2, 3, 4],
                   "orders": [2, 4, 6], "nref": NREFS,
                   "axes(Nt,dt)": [AX_SHORT] if run.tier == "quick" else [AX_SHORT, AX_LONG],
                   "norm(H)*dt": "<= 0.5 (scales 1, 0.25%s)" % ("" if run.tier == "quick" else ", 0.5"),
                   "sv phase alphabet": list(SV_PHASES), "sv routes": list(SV_ROUTES) + ["psi_i"],
+                  "rwa blocks": {k: list(v) for k, v in RWA_BLOCKS.items()},
+                  "ctx_sites": ctx_sites_domain(),
+                  "ctx_units": ["1/cm", "eV"] if run.tier == "quick" else ["1/cm", "eV", "THz", "int"],
                   "cases": len(cs)}
     infos = run_grid(run, cs, eval_case)
     worst, unb, secs = {}, {}, {}
